@@ -989,6 +989,19 @@ def _p_utf8(eng, args, p):
     return VBytes(eng.func("utf8", Str, S)(eng.str_term(args[0])), "bytes")
 
 
+def _p_or_empty(eng, args, p):
+    """or_empty(x): an Optional[bytes] read as octets - the empty string when it is None."""
+    v = args[0]
+    if isinstance(v, VNone):
+        return VBytes(z3.Empty(S), "bytes")
+
+    def octets(x):          # text is read as its UTF-8 octets
+        return eng.func("utf8", Str, S)(eng.str_term(x)) if isinstance(x, VStr) else x.t
+    if isinstance(v, VOpt):
+        return VBytes(z3.If(v.isnone, z3.Empty(S), octets(v.val)), "bytes")
+    return VBytes(octets(v), "bytes")
+
+
 def _p_unutf8(eng, args, p):
     """unutf8(octets): the text bytes.decode produces for well-formed UTF-8 (the same uninterpreted function the model of bytes.decode uses)."""
     return VStr(eng.func("unutf8", S, Str)(args[0].t))
@@ -1036,6 +1049,6 @@ def _p_ids_below(eng, args, p):
     return VBool(z3.ForAll([x], z3.Implies(z3.Select(args[0].t, x), z3.And(x >= 1, x < eng.as_int(args[1])))))
 
 
-SPEC_PRIMS = {"unutf8": _p_unutf8, "utf8": _p_utf8, "ids_below": _p_ids_below, "nil_obj": _p_nil_obj, "cons_obj": _p_cons_obj, "cat_obj": _p_cat_obj, "cat": _p_cat, "seq1": _p_seq1, "empty": _p_empty, "take": _p_take, "drop": _p_drop,
+SPEC_PRIMS = {"or_empty": _p_or_empty, "unutf8": _p_unutf8, "utf8": _p_utf8, "ids_below": _p_ids_below, "nil_obj": _p_nil_obj, "cons_obj": _p_cons_obj, "cat_obj": _p_cat_obj, "cat": _p_cat, "seq1": _p_seq1, "empty": _p_empty, "take": _p_take, "drop": _p_drop,
               "is_bytes": _p_is_bytes, "empty_set": _p_empty_set, "set_add": _p_set_add, "set_del": _p_set_del,
               "subset": _p_subset}
